@@ -41,6 +41,8 @@ def concrete(letter):
         return 127, "sh: 1: /x/exe: not found\n", "OExit 127 Unparsable"
     if letter == "oserr":
         return None, None, "OOsErr"
+    if letter == "enoent":          # the working directory (suite location) does not exist: Popen raises ENOENT
+        return None, 2, "OOsErr"
     raise ValueError(letter)
 
 
@@ -133,6 +135,8 @@ def run_impl(specs, data_file, scheduler="batch", argv=(), failing_builds=(), se
                 raise KeyboardInterrupt()
         rc, out, _ = concrete(by_name[bench].letter(inv, k))
         if rc is None:
+            if out == 2:
+                raise FileNotFoundError(2, "No such file or directory", by_name[bench].suite_loc)
             raise OSError(13, "Permission denied")
         return rc, out
 
